@@ -214,6 +214,27 @@ def run_harness(h, logdir, playback=False):
         p = subprocess.Popen(cmd, cwd=cdir, env=ENV, stdout=lf, stderr=subprocess.STDOUT,
                              # the playback run cannot use formula slicing (CBMC needs the full trace): ~2x the memory
                              preexec_fn=_limits(min(h.mem_gb * 3.2 + 4, 56) if playback else h.mem_gb * 1.6 + 4))
+        peak = [0.0]
+        stop = threading.Event()
+
+        def watch():
+            # peak resident memory of the harness' process group (cargo, kani-driver, cbmc), sampled every 5 s
+            while not stop.wait(5):
+                tot = 0
+                try:
+                    for d in os.listdir("/proc"):
+                        if d.isdigit():
+                            try:
+                                st = open("/proc/%s/stat" % d).read().rsplit(")", 1)[1].split()
+                                if int(st[3]) == p.pid:  # session id (the child called setsid)
+                                    tot += int(st[21]) * 4096
+                            except (OSError, IndexError, ValueError):
+                                pass
+                except OSError:
+                    pass
+                peak[0] = max(peak[0], tot / 1024.0 ** 3)
+        wt = threading.Thread(target=watch, daemon=True)
+        wt.start()
         try:
             rc = p.wait(timeout=h.timeout * (2 if playback else 1))
         except subprocess.TimeoutExpired:
@@ -223,11 +244,13 @@ def run_harness(h, logdir, playback=False):
             except ProcessLookupError:
                 pass
             rc = p.wait()
+    stop.set()
     wall = time.time() - t0
     text = open(log, errors="replace").read()
     parsed = parse_log(text)
     status, why = classify(h, parsed, rc, timed_out)
     return {"harness": h.name, "crate": h.crate, "status": status, "why": why, "wall_s": round(wall, 1),
+            "peak_rss_gb": round(peak[0], 1),
             "solver_time_s": parsed["time_s"], "checks": parsed["checks"], "failed": parsed["failed"],
             "unreachable": parsed["unreachable"], "success": parsed["success"],
             "covers": [{"desc": c["desc"], "status": c["status"]} for c in parsed["covers"]],
